@@ -51,6 +51,8 @@ def run(ctx: Ctx):
                         "correctness of the alignments computed by the jobs (C01/C02/C10/C11)"]
     ctx.assumptions += ["ThreadPoolExecutor runs every submitted job to completion; .result() returns the job's return value"]
     M = ctx.model
+    from .c06 import pool_kind_obligation
+    pool_kind_obligation(ctx, "R-C05-3", ["Continuum.compute_gamma"])
     # "each the same kind of alignment of a freshly sampled continuum whose annotators come from the ground-truth annotators": the structural
     # rules of the two samplers on where a sample's annotators and units come from are part of this property too
     from .c15 import rule_generation as _stat_generation
